@@ -532,6 +532,37 @@ func GenTypes(t *rapid.T, o *Opts) *Spec {
 			}
 		}
 	}
+	if o.SameNamePromoted && rapid.IntRange(0, 2).Draw(t, "sameNamePromotedPair") == 0 {
+		// directed: Order{ID `json:"id"`; Audit} with Audit{ID `json:"audit_id"`}: both keys are on the wire
+		inner := &Decl{Kind: KStruct, Name: g.freshName(root, "snpInner", true), Fields: []*Field{
+			{Name: "Zident", Type: Basic("int"), Tag: `json:"inner_ident"`}, {Name: "Zrev", Type: Basic("int")}}}
+		ii := g.newDecl(root, root.Files[rapid.IntRange(0, 1).Draw(t, "snpInnerFile")], inner, &tinfo{cat: "struct"})
+		outer := &Decl{Kind: KStruct, Name: g.freshName(root, "snpOuter", true), Fields: []*Field{
+			{Name: "Zident", Type: Basic("string"), Tag: `json:"ident"`},
+			{Name: inner.Name, Type: g.refTo(root, ii), Embedded: true},
+			{Name: "Znote", Type: Basic("string")}}}
+		if rapid.Bool().Draw(t, "snpOrder") {
+			outer.Fields[0], outer.Fields[1] = outer.Fields[1], outer.Fields[0]
+		}
+		g.newDecl(root, root.Files[0], outer, &tinfo{cat: "struct"})
+		o.class("feature:promoted_field_same_go_name_distinct_key")
+	}
+	if o.SmallKeyMaps && rapid.Bool().Draw(t, "smallKeyMap") {
+		// a map whose key type has only a handful of values (an enum): it cannot hold dozens of entries
+		var es []*tinfo
+		for _, ti := range g.types {
+			if ti.cat == "enum" && ti.pkg == root && ti.keyOK && ti.exported {
+				es = append(es, ti)
+			}
+		}
+		if len(es) > 0 {
+			e := es[rapid.IntRange(0, len(es)-1).Draw(t, "smallKeyEnum")]
+			h := &Decl{Kind: KStruct, Name: g.freshName(root, "smallKeyHolder", true), Fields: []*Field{
+				{Name: "ByKind", Type: Map(g.refTo(root, e), Basic("int"))}, {Name: "N", Type: Basic("int")}}}
+			g.newDecl(root, root.Files[0], h, &tinfo{cat: "struct"})
+			o.class("feature:map_keyed_by_small_enum")
+		}
+	}
 	if o.DataIgnoreUnions && rapid.Bool().Draw(t, "dataIgnoreHolder") {
 		// a struct whose union field is skipped for data generation, next to one that is not
 		var us []*tinfo
